@@ -426,6 +426,9 @@ thread_local! {
 }
 
 pub fn run(args: &Args, rep: &mut Rep, focus: Focus) {
+    if args.param_s("naming", "") == "fhigh" {
+        crate::tm::NAMING.store(1, std::sync::atomic::Ordering::Relaxed);
+    }
     let profile = args.param_s("profile", "mix");
     let sparse = args.param_u("sparse", 0) == 1;
     drive(args, rep, move |rng, _| {
